@@ -1442,14 +1442,19 @@ void TopologyKernel::swap_cell_indices(CellHandle _h1, CellHandle _h2)
 
     // correct pointers to those cells
     if (has_face_bottom_up_incidences()) {
+        // Determine both sets of halffaces before changing anything: a deferred-deleted
+        // cell may still list halffaces that meanwhile belong to the other cell.
+        std::vector<HalfFaceHandle> hfs1, hfs2;
         for (const auto hfh: cells_[_h1].halffaces()) {
             if (incident_cell_per_hf_[hfh] == _h1)
-                incident_cell_per_hf_[hfh] = _h2;
+                hfs1.push_back(hfh);
         }
         for (const auto hfh: cells_[_h2].halffaces()) {
             if (incident_cell_per_hf_[hfh] == _h2)
-                incident_cell_per_hf_[hfh] = _h1;
+                hfs2.push_back(hfh);
         }
+        for (const auto hfh: hfs1) incident_cell_per_hf_[hfh] = _h2;
+        for (const auto hfh: hfs2) incident_cell_per_hf_[hfh] = _h1;
     }
 
     // swap vector entries
